@@ -235,7 +235,7 @@ CHECKS = {
         category="proof",
         text="Lookup core: GetMethodT / getParentMethodT (with the entered-set of the cyclic-inheritance fix) are modelled over Go-map models of TFrame and ClassInheritanceMap. Lean proves for EVERY table, EVERY graph (cycles included) and any fuel: a resolved definition exists in the table and carries the asked method name and privacy flag — so an explicit-receiver call never resolves to a private method; "
              "the class's own definition wins; a direct superclass's / included module's definition is found; resolution fails when no key of that name exists. Ancestor order: explicit ancestors registered through AddParentNode precede the implicit Object ancestor for any number of them, so a superclass's override of an Object method wins (stream addparent). "
-             "Protected calls: the ancestor walk isAncestorNode is modelled; the check passes for the class itself, for a direct subclass in any graph (cycles included) and for a descendant at ANY depth of a single-inheritance chain, and a true answer implies that the defining class is reachable through parent edges (soundness for every graph, fuel and entered-set: an outsider is always reported) (stream ancestor on generated graphs through a verif hook). "
+             "Protected calls: the ancestor walk isAncestorNode is modelled; the check passes for the class itself, for a direct subclass in any graph (cycles included) and for a descendant at ANY depth of a superclass chain (each class having the next as its first parent, other parents such as Object allowed), and a true answer implies that the defining class is reachable through parent edges (soundness for every graph, fuel and entered-set: an outsider is always reported) (stream ancestor on generated graphs through a verif hook). "
              "End-to-end: generated hierarchies (chains of depth 1-4, include/extend, class << self, initialize, visibility sections, protected calls from descendants and outsiders, overrides of to_s/inspect, nested classes, receiverless module calls, namespaced groups) with calls whose outcome is computed by a reference model of Ruby's rules; the set of reported rows and the probed types must match exactly.",
         design="DESIGN.md §4 C16",
         note="Partial: how the class/module/include/def evaluators populate the maps and the private check of the strategies are end-to-end only; completeness of the ancestor walk for graphs with several parents per class is validated by the stream, not proved. Names are fresh (collisions with configured class names are C20's business).",
